@@ -36,12 +36,6 @@ Definition sx_outcome (q : req) (r : result (list (str * val))) : sx :=
                                           | None => [] end) (out_names q))]
   end.
 
-Definition is_tmp (p : path) : bool :=
-  match p with
-  | "t"%char :: "m"%char :: "p"%char :: ":"%char :: _ => true
-  | _ => false
-  end.
-
 (* the files below the run folder (temporary files excluded) and whether they are complete, sorted by path *)
 Definition listing (s0 : fs) : sx :=
   let fl := filter (fun pc => negb (is_tmp (fst pc))) (files s0) in
